@@ -1926,6 +1926,10 @@ package rtcp
 //@   ensures[C09] fields: err == nil && err2 == nil ==> q.SenderSSRC == p.SenderSSRC && len(q.SSRCs) == len(p.SSRCs)
 //@   ensures[C09] ssrcs: forall k :: err == nil && err2 == nil && 0 <= k && k < len(p.SSRCs) ==> q.SSRCs[k] == p.SSRCs[k]
 //@   ensures[C09] notabove: err == nil && err2 == nil ==> q.Bitrate <= p.Bitrate
+
+//@ func lemmaReencodeREMBExact(raw []byte) (p ReceiverEstimatedMaximumBitrate, q ReceiverEstimatedMaximumBitrate, err error, err2 error, err3 error)
+//@   lemma
+//@   slow
 //@   ensures[C09] bitrate: err == nil && err2 == nil ==> q.Bitrate == p.Bitrate
 
 //@ func lemmaReencodeTWCCPre(raw []byte) (p TransportLayerCC, err error, err2 error)
